@@ -1,5 +1,5 @@
 (* C10 - SEI reader yields exactly the encoded (type,payload) messages, then stays ended. *)
-From H264 Require Import Base.Prelude Model.BitReader Model.Sei Spec.SeiSpec Proofs.SeiProofs Proofs.C10_proofs.
+From H264 Require Import Base.Prelude Model.BitReader Model.Sei Spec.SeiSpec Proofs.SeiProofs Proofs.C10_proofs Proofs.C10_converse.
 Local Open Scope N_scope.
 
 (* every non-empty list of messages whose types and sizes fit 32 bits, coded with 0xFF extension
@@ -33,6 +33,15 @@ Theorem C10_u32_overflow : forall nm n b rest t, b <> 255 ->
   else ERR (ReaderErrorFor nm InvalidData).
 Proof. exact read_u32_boundary. Qed.
 Print Assumptions C10_u32_overflow.
+
+(* converse: every message the reader returns was coded at its position exactly as 7.3.2.3.1 prescribes - the 0xFF
+   coding of the type, the 0xFF coding of the payload size, the payload - and the reader advanced by exactly that *)
+Theorem C10_converse : forall r t p r', bytes_ok (sbytes (sr_src r)) ->
+  sei_next r = (OK (Some (mk_msg t p)), r') ->
+  sbytes (sr_src r) = enc_msg (t, p) ++ sbytes (sr_src r') /\ stail (sr_src r') = stail (sr_src r) /\
+  t < two32 /\ N.of_nat (length p) < two32 /\ payloads_seen r' = payloads_seen r + 1.
+Proof. exact sei_next_converse. Qed.
+Print Assumptions C10_converse.
 
 Theorem C10_total : forall r, no_abort (fst (sei_next r)).
 Proof. exact sei_next_total. Qed.
